@@ -1,6 +1,7 @@
 import PdshVerif.Base.Hex
 import PdshVerif.Dshbak.Model
 import PdshVerif.Dshbak.Spec
+import PdshVerif.Dshbak.Options
 import Driver.Util
 
 /-! line protocol of the dshbak engine
@@ -42,12 +43,13 @@ def parseLimits (s : String) : Option Nat × Option Nat :=
 def runModel (line : String) : String :=
   match Driver.words line with
   | [mode, rep, slimmr, hxin] =>
-    match unhx hxin with
+    -- HEXINPUT: the bytes of stdin, or `HEX+HEX+...` = the FILE ARGUMENTS in order (`-` = an empty file)
+    match (hxin.splitOn "+").mapM (fun x => if x = "-" then some [] else unhx x) with
     | none => "bad-op"
-    | some input =>
+    | some files =>
       let flags := rep.toNat?.getD 0
       let (lim, mr) := parseLimits slimmr
-      let m := processLines (flags % 2 = 1) (readLines input)
+      let m := processLines (flags % 2 = 1) (readFiles files)
       if mode = "n" then
         semis ((normalBlocks (keys m) m).map fun b => hx b.1 ++ "=" ++ hxs b.2)
       else if mode = "c" then
@@ -67,6 +69,24 @@ def runHeader (line : String) : Option String :=
     let (lim, mr) := parseLimits slimmr
     let gs := compressV lim mr (flags / 2 % 2 = 1) (strSort tags)
     pure (hxs (gs.map fun g => renderHeader [g]) ++ "=" ++ toString (hostsOf gs).length)
+  | _ => none
+
+/-- `o FIXD0 FLAGS D DIRSTATE`: the option block (`Dshbak/Options.lean` `plan`).  FLAGS = letters of c h f or
+`-`, D = HEX(argument of -d) or `~` (no -d; `-` = the empty string), DIRSTATE = dir | missing | notdir.
+`f HEX(tag),...`: `fileNameOK` of every tag, one digit each. -/
+def runOpt (line : String) : Option String :=
+  match Driver.words line with
+  | ["o", fix, flags, d, ds] => do
+    let dv : Option Str ← if d = "~" then some none else if d = "-" then some (some []) else (unhx d).map some
+    let st : DirState ← match ds with
+      | "dir" => some .dir | "missing" => some .missing | "notdir" => some .notDir | _ => none
+    let o : Opts := { c := flags.contains 'c', h := flags.contains 'h', f := flags.contains 'f', d := dv }
+    pure (match plan (fix = "1") o st with
+      | .usage => "usage" | .fatal => "fatal" | .report => "report" | .coalesced => "coalesced"
+      | .perFile false => "perfile0" | .perFile true => "perfile1")
+  | ["f", tags] => do
+    let tags ← unhxs tags
+    pure (String.ofList (tags.map fun t => if fileNameOK t then '1' else '0'))
   | _ => none
 
 def parseRecs (s : String) : Option (List (Str × Str)) :=
@@ -100,7 +120,7 @@ def runSpec (line : String) : String :=
 def main (args : List String) : IO UInt32 := do
   let stdin ← IO.getStdin
   match args with
-  | ["model"] => Driver.forLines stdin () (fun _ l => ((), (runHeader l).getD (runModel l))); return 0
+  | ["model"] => Driver.forLines stdin () (fun _ l => ((), ((runHeader l).orElse fun _ => runOpt l).getD (runModel l))); return 0
   | ["spec"] => Driver.forLines stdin () (fun _ l => ((), runSpec l)); return 0
   | _ => IO.eprintln "usage: pdshmodel dshbak model|spec"; return 2
 
